@@ -33,7 +33,7 @@ and “Parameters”: Pass State, Task State, and Parallel State.
 import sys
 assert sys.version_info >= (3, 0)  # Bomb out if not running Python3
 
-import hashlib, random, re, uuid
+import copy, hashlib, random, re, uuid
 
 """
 ASL paths use JSONPath.
@@ -211,6 +211,13 @@ def apply_resultpath(input, result, path="$"):
         raise ResultPathMatchFailure(
             "The value of \"ResultPath\" MUST NOT begin with \"$$\""
         )
+
+    """
+    The result may be (part of) the input itself, for example a Pass state with
+    a ResultPath but no Result. Placing it by reference would make the output
+    contain itself (a circular reference), so place a copy instead.
+    """
+    result = copy.deepcopy(result)
 
     matches = re.findall(r"[^$.[\]]+", path)  # Regex to split the reference paths
     return update_path(input, matches, result)
